@@ -4,6 +4,7 @@ import SvgVerif.Model.PathParam
 import SvgVerif.Model.PathOps
 import SvgVerif.Model.PathState
 import SvgVerif.Model.CubicCache
+import SvgVerif.Model.InvArc
 /-! Correspondence driver: one operation per input line, one canonical result per
 output line.  Run as `lake env lean --run Driver.lean < ops.txt`.  The Python
 harness feeds the same operations to the real svgpathtools code and diffs. -/
@@ -93,6 +94,60 @@ def runCubCache (buggy : Bool) (line : List String) : String :=
       | _ => (c, "bad" :: os)) (none, [])
   " ; ".intercalate outs.reverse
 
+/-! C07 -/
+open SvgVerif.Model.InvArc in
+def showIl : IlRes Rat → String
+  | .value t => "value " ++ showRat t
+  | .stalled t => "stalled " ++ showRat t
+  | .valueError => "valueerror"
+  | .assertion => "assert"
+  | .maxits => "maxits"
+
+/-- stub arc-length function `t ↦ L (a t + (1-a) t²)` -/
+def stubLen (L a : Rat) (t : Rat) : Rat := L * (a * t + (1 - a) * t * t)
+
+open SvgVerif.Model.InvArc in
+def runInvPath (ws : List String) : String :=
+  match splitBar ws with
+  | [[sTol, maxits, s], segs] =>
+    match parseRat? sTol, maxits.toNat?, parseRat? s with
+    | some sTol, some maxits, some s =>
+      -- segs: triples kind L a
+      let rec triples : List String → Option (List (String × Rat × Rat))
+        | [] => some []
+        | k :: l :: a :: r => do pure ((k, ← parseRat? l, ← parseRat? a) :: (← triples r))
+        | _ => none
+      match triples segs with
+      | some ts =>
+        let lens := ts.map (fun x => x.2.1)
+        let inv : Nat → Rat → IlRes Rat := fun k r =>
+          match ts[k]? with
+          | some ("line", L, _) => invLine L r
+          | some (_, L, a) => invSeg (stubLen L a) sTol maxits r
+          | none => .assertion
+        showIl (invPath inv lens s)
+      | none => "bad-args"
+    | _, _, _ => "bad-args"
+  | _ => "bad-args"
+
+open SvgVerif.Model.InvArc in
+def runStall (buggy : Bool) (ws : List String) : String :=
+  match ws.mapM (·.toNat?) with
+  | some [cbits, maxits] =>
+    let c := Float.ofBits (UInt64.ofNat cbits)
+    let len : Float → Float := fun t => if t < c then 0.0 else 1.0
+    let close : Float → Bool := fun st => Float.abs (st - 0.5) < 1e-12
+    let below : Float → Bool := fun st => st < 0.5
+    let mid : Float → Float → Float := fun a b => (a + b) / 2
+    let eqb : Float → Float → Bool := fun a b => a == b
+    let res := if buggy then bisectBuggy mid eqb len close below maxits 0.0 1.0
+               else bisect mid eqb len close below maxits 0.0 1.0
+    match res with
+    | .ret t => s!"ret {t.toBits.toNat}"
+    | .stall t => s!"stall {t.toBits.toNat}"
+    | .maxits => "maxits"
+  | _ => "bad-args"
+
 def handle (cmd : String) (args : List String) : String :=
   match cmd with
   | "polyroots01" =>
@@ -180,6 +235,17 @@ def handle (cmd : String) (args : List String) : String :=
       let starts := PathOps.rot1 (res.map (·.1))
       " ".intercalate ((res.zip starts).map fun (s, nx) => if s.2 = nx then "1" else "0")
     | none => "bad-args"
+  | "invseg" =>
+    match parseRats? args with
+    | some [L, a, sTol, maxits, s] => showIl (InvArc.invSeg (stubLen L a) sTol maxits.num.toNat s)
+    | _ => "bad-args"
+  | "invline" =>
+    match parseRats? args with
+    | some [L, s] => showIl (InvArc.invLine L s)
+    | _ => "bad-args"
+  | "invpath" => runInvPath args
+  | "stall" => runStall false args
+  | "stall_buggy" => runStall true args
   | "cubcache" => runCubCache false args
   | "cubcache_buggy" => runCubCache true args
   | "hist" => runHistory false args
